@@ -94,3 +94,177 @@ CONTROLS['C16'] = [
       "    context = ctxt\n"
       "    uuid = util.wsgi_path_item(req.environ, 'uuid')\n"),
 ]
+
+RP = O + 'resource_provider.py'
+CONTROLS['C10'] = [
+    M('c10-drop-incr-delete-inventory', RP,
+      "            % resource_class)\n    rp.increment_generation()\n",
+      "            % resource_class)\n", 'R10.1'),
+    M('c10-early-return-set-inventory', RP,
+      "    if to_delete:\n        _delete_inventory_from_provider(context, rp, to_delete)\n",
+      "    if to_delete:\n        _delete_inventory_from_provider(context, rp, to_delete)\n"
+      "        if not to_add and not to_update:\n            return exceeded\n",
+      'R10.1'),
+    M('c10-incr-other-object', RP,
+      "        _add_traits_to_provider(context, rp.id, to_add)\n    rp.increment_generation()\n",
+      "        _add_traits_to_provider(context, rp.id, to_add)\n"
+      "    ResourceProvider.get_by_uuid(context, rp.uuid).increment_generation()\n",
+      'R10.1'),
+    M('c10-agg-flag-false', H + 'aggregate.py',
+      "                    increment_generation=consider_generation)",
+      "                    increment_generation=False)", 'R10.3'),
+    M('c10-agg-flag-other-gate', H + 'aggregate.py',
+      "    consider_generation = want_version.matches(\n        min_version=_INCLUDE_GENERATION_VERSION)",
+      "    consider_generation = want_version.matches(\n        min_version=(1, 20))",
+      'R10.3'),
+    M('c10-write-in-get', H + 'trait.py',
+      "    traits = trait_obj.get_all_by_resource_provider(context, rp)\n",
+      "    traits = trait_obj.get_all_by_resource_provider(context, rp)\n"
+      "    rp.set_traits(traits)\n", 'R10.6'),
+    M('c10-consumer-update-generation', O + 'consumer.py',
+      "                consumer_type_id=self.consumer_type_id)\n            # NOTE(jaypipes): We add",
+      "                consumer_type_id=self.consumer_type_id,\n"
+      "                generation=self.generation)\n            # NOTE(jaypipes): We add",
+      'R10.4'),
+    M('c10-skip-provider-loop', O + 'allocation.py',
+      "    for rp in visited_rps.values():\n        rp.increment_generation()\n",
+      "    if len(allocs) > 1:\n        for rp in visited_rps.values():\n"
+      "            rp.increment_generation()\n", 'R10.2'),
+    M('c10-continue-before-visit', O + 'allocation.py',
+      "        if alloc.consumer.id not in visited_consumers:\n"
+      "            visited_consumers[alloc.consumer.id] = alloc.consumer\n",
+      "        if alloc.used == 0 and len(allocs) > 1:\n            continue\n"
+      "        if alloc.consumer.id not in visited_consumers:\n"
+      "            visited_consumers[alloc.consumer.id] = alloc.consumer\n",
+      'R10.2'),
+    M('c10-provider-map-after-skip', O + 'allocation.py',
+      "        if rp_uuid not in res_providers:\n"
+      "            res_providers[rp_uuid] = alloc.resource_provider\n"
+      "        amount_needed = alloc.used\n"
+      "        rp_resource_class_sum[rp_uuid][rc_id] += amount_needed\n"
+      "        # No use checking usage if we're not asking for anything\n"
+      "        if amount_needed == 0:\n            continue\n",
+      "        amount_needed = alloc.used\n"
+      "        rp_resource_class_sum[rp_uuid][rc_id] += amount_needed\n"
+      "        # No use checking usage if we're not asking for anything\n"
+      "        if amount_needed == 0:\n            continue\n"
+      "        if rp_uuid not in res_providers:\n"
+      "            res_providers[rp_uuid] = alloc.resource_provider\n",
+      'R10.2'),
+    M('c10-response-from-reread', H + 'inventory.py',
+      "    return _send_inventories(req, resource_provider, inventories)\n",
+      "    fresh = rp_obj.ResourceProvider.get_by_uuid(context, uuid)\n"
+      "    return _send_inventories(req, fresh, inventories)\n", 'R10.5'),
+    B('c10-benign-rename', RP,
+      "    rc_id = context.rc_cache.id_from_string(inventory.resource_class)\n"
+      "    _add_inventory_to_provider(\n        context, rp, [inventory], set([rc_id]))\n"
+      "    rp.increment_generation()\n",
+      "    rcid = context.rc_cache.id_from_string(inventory.resource_class)\n"
+      "    _add_inventory_to_provider(\n        context, rp, [inventory], {rcid})\n"
+      "    rp.increment_generation()\n"),
+    B('c10-benign-incr-in-both-branches', RP,
+      "    if to_add:\n        _add_traits_to_provider(context, rp.id, to_add)\n    rp.increment_generation()\n",
+      "    if to_add:\n        _add_traits_to_provider(context, rp.id, to_add)\n"
+      "        rp.increment_generation()\n    else:\n        rp.increment_generation()\n"),
+]
+
+CONTROLS['C05'] = [
+    M('c05-drop-generation-conjunct', RP,
+      "        upd_stmt = _RP_TBL.update().where(sa.and_(\n"
+      "            _RP_TBL.c.id == self.id,\n"
+      "            _RP_TBL.c.generation == rp_gen)).values(",
+      "        upd_stmt = _RP_TBL.update().where(sa.and_(\n"
+      "            _RP_TBL.c.id == self.id)).values(", 'R5.1'),
+    M('c05-rowcount-gt', RP,
+      "        if res.rowcount != 1:\n            raise exception.ResourceProviderConcurrentUpdateDetected()",
+      "        if res.rowcount > 1:\n            raise exception.ResourceProviderConcurrentUpdateDetected()",
+      'R5.1'),
+    M('c05-no-plus-one', RP,
+      "        new_generation = rp_gen + 1\n        upd_stmt = _RP_TBL",
+      "        new_generation = rp_gen\n        upd_stmt = _RP_TBL", 'R5.1'),
+    M('c05-where-memory-after-bump', RP,
+      "        rp_gen = self.generation\n        new_generation = rp_gen + 1\n",
+      "        rp_gen = self.generation\n        new_generation = rp_gen + 1\n"
+      "        self.generation = new_generation\n", 'R5.1'),
+    M('c05-drop-early-check', H + 'inventory.py',
+      "    data = _extract_inventories(req.body, schema.PUT_INVENTORY_SCHEMA)\n"
+      "    if data['resource_provider_generation'] != resource_provider.generation:\n"
+      "        raise webob.exc.HTTPConflict(\n"
+      "            'resource provider generation conflict',\n"
+      "            comment=errors.CONCURRENT_UPDATE)\n",
+      "    data = _extract_inventories(req.body, schema.PUT_INVENTORY_SCHEMA)\n",
+      'R5.2'),
+    M('c05-check-after-mutator', H + 'trait.py',
+      "    if resource_provider.generation != rp_gen:\n"
+      "        raise webob.exc.HTTPConflict(\n"
+      "            \"Resource provider's generation already changed. Please update \"\n"
+      "            \"the generation and try again.\",\n"
+      "            json_formatter=util.json_error_formatter,\n"
+      "            comment=errors.CONCURRENT_UPDATE)\n",
+      "    if resource_provider.generation < rp_gen:\n"
+      "        raise webob.exc.HTTPConflict(\n"
+      "            \"Resource provider's generation already changed. Please update \"\n"
+      "            \"the generation and try again.\",\n"
+      "            json_formatter=util.json_error_formatter,\n"
+      "            comment=errors.CONCURRENT_UPDATE)\n", 'R5.2'),
+    M('c05-reread-after-check', H + 'inventory.py',
+      "    inventory = make_inventory_object(resource_provider,\n"
+      "                                      resource_class,\n"
+      "                                      **data)\n\n    try:\n"
+      "        _validate_inventory_capacity(\n"
+      "            req.environ[microversion.MICROVERSION_ENVIRON], inventory)\n"
+      "        resource_provider.update_inventory(inventory)",
+      "    inventory = make_inventory_object(resource_provider,\n"
+      "                                      resource_class,\n"
+      "                                      **data)\n\n    try:\n"
+      "        _validate_inventory_capacity(\n"
+      "            req.environ[microversion.MICROVERSION_ENVIRON], inventory)\n"
+      "        rp_obj.ResourceProvider.get_by_uuid(\n"
+      "            context, uuid).update_inventory(inventory)", 'R5.2'),
+    M('c05-unmap-conflict-update-inventory', H + 'inventory.py',
+      "        resource_provider.update_inventory(inventory)\n"
+      "    except (exception.ConcurrentUpdateDetected,\n"
+      "            db_exc.DBDuplicateEntry) as exc:",
+      "        resource_provider.update_inventory(inventory)\n"
+      "    except db_exc.DBDuplicateEntry as exc:", 'R5.3'),
+    M('c05-reintroduce-F2', H + 'trait.py',
+      "    try:\n        resource_provider.set_traits(trait_objs)\n"
+      "    except exception.ConcurrentUpdateDetected as e:\n"
+      "        raise webob.exc.HTTPConflict(e.format_message(),\n"
+      "                                     comment=errors.CONCURRENT_UPDATE)\n",
+      "    resource_provider.set_traits(trait_objs)\n", 'R5.3'),
+    M('c05-wrong-error-code', H + 'inventory.py',
+      "            'Unable to delete inventory for resource provider '\n"
+      "            '%(rp_uuid)s because the inventory was updated by '\n"
+      "            'another process. Please retry your request.' %\n"
+      "            {'rp_uuid': resource_provider.uuid},\n"
+      "            comment=errors.CONCURRENT_UPDATE)",
+      "            'Unable to delete inventory for resource provider '\n"
+      "            '%(rp_uuid)s because the inventory was updated by '\n"
+      "            'another process. Please retry your request.' %\n"
+      "            {'rp_uuid': resource_provider.uuid},\n"
+      "            comment=errors.INVENTORY_INUSE)", 'R5.3'),
+    M('c05-conflict-as-400', H + 'aggregate.py',
+      "    except exception.ConcurrentUpdateDetected as exc:\n"
+      "        raise webob.exc.HTTPConflict(",
+      "    except exception.ConcurrentUpdateDetected as exc:\n"
+      "        raise webob.exc.HTTPBadRequest(", 'R5.3'),
+    M('c05-aggregate-check-wrong-gate', H + 'aggregate.py',
+      "    if consider_generation:\n        # Check for generation conflict\n",
+      "    if want_version.matches((1, 21)):\n        # Check for generation conflict\n",
+      'R5.2'),
+    B('c05-benign-swap-sides', H + 'inventory.py',
+      "    data = _extract_inventory(req.body, schema.BASE_INVENTORY_SCHEMA)\n"
+      "    if data['resource_provider_generation'] != resource_provider.generation:",
+      "    data = _extract_inventory(req.body, schema.BASE_INVENTORY_SCHEMA)\n"
+      "    if resource_provider.generation != data['resource_provider_generation']:"),
+    B('c05-benign-rename-gen', RP,
+      "        rp_gen = self.generation\n        new_generation = rp_gen + 1\n"
+      "        upd_stmt = _RP_TBL.update().where(sa.and_(\n"
+      "            _RP_TBL.c.id == self.id,\n"
+      "            _RP_TBL.c.generation == rp_gen)).values(",
+      "        gen = self.generation\n        new_generation = 1 + gen\n"
+      "        upd_stmt = _RP_TBL.update().where(sa.and_(\n"
+      "            _RP_TBL.c.generation == gen,\n"
+      "            _RP_TBL.c.id == self.id)).values("),
+]
